@@ -434,32 +434,31 @@ func substring(ctx *context, args []Datum) (retLit Datum) {
 	num1 := args[1].Number("substring()")
 	num2 := args[2].Number("substring()")
 
-	substrLen := len(lit0)
-	if substrLen == 0 {
-		return NewLiteralDatum("")
+	// The result holds the characters whose (1-based) position is
+	// >= round(arg 2) and < round(arg 2) + round(arg 3).  Done in floating
+	// point so that NaN and infinite arguments behave as XPATH specifies.
+	xround := func(f float64) float64 {
+		if math.IsNaN(f) || math.IsInf(f, 0) {
+			return f
+		}
+		r := math.Floor(f)
+		if f-r >= 0.5 {
+			r++
+		}
+		return r
 	}
+	first := xround(num1)
+	end := first + xround(num2)
 
-	// NB: XPATH uses 1 as first index in string, not zero, so we have to
-	//     subtract one here.  We also need to ensure both start and end Pos
-	//     are >= 0.
-	startPos := int(math.Trunc(num1+0.5)) - 1
-	endPos := int(math.Trunc(num2+0.5)) + startPos
-	if startPos < 0 {
-		// Only do this AFTER calculating endPos as the spec says we calculate
-		// length based on the rounded difference of the two params.
-		startPos = 0
+	var b strings.Builder
+	pos := 0
+	for _, c := range lit0 {
+		pos++
+		if float64(pos) >= first && float64(pos) < end {
+			b.WriteRune(c)
+		}
 	}
-	if startPos >= substrLen {
-		return NewLiteralDatum("")
-	}
-	if endPos < 0 {
-		endPos = 0
-	}
-	if endPos > substrLen {
-		endPos = substrLen
-	}
-	substr := lit0[startPos:endPos]
-	return NewLiteralDatum(substr)
+	return NewLiteralDatum(b.String())
 }
 
 func substringAfter(ctx *context, args []Datum) (retLit Datum) {
